@@ -428,9 +428,101 @@ func init() {
 		Rules: []Rule{
 			{"Z1", "every Reset method zeroes its whole receiver (composite wipe) or resets every field of the receiver type; only caller-supplied slices saved before the wipe survive it; re-initialising Init methods call Reset first and then only attach caller arrays", ruleZ1},
 			{"Z2", "a slice that survives Reset is cleared over its full length: the writers hand out element [N] before N++, so a bound of min(N,len) leaves a half-parsed element behind", ruleZ2},
+			{"Z4", "a re-initialising Init (Reset first) assigns every array that survives Reset on every path, so that nil arguments select the private defaults and never the arrays of the previous use", ruleZ4},
 			{"Z3", "PSIPMsg.Reset restores exactly Buf, HL.Hdrs and PV.Contacts.Vals, each from its own saved copy, after PV.Reset()/HL.Reset() cleaned the arrays", ruleZ3},
 		},
 		Assumptions: []string{"setter-style Init(buf) methods that only attach an array (PContacts.Init, URIParamsLst.Init, URIHdrsLst.Init) are not 'init operations' in the sense of the property", "no state outside the object (C04-I1)"},
 		NotDecided:  "behavioural equality of later parses as values; the rule decides that no field or array element reachable from the object can carry state across Reset",
 	})
+}
+
+// survivors: slice paths (relative to the receiver) that survive T.Reset().
+func survivors(c *Ctx, typeName string, depth int) []string {
+	if depth > 3 || c.Decls[typeName+".Reset"] == nil {
+		return nil
+	}
+	ri := analyseReset(c, typeName+".Reset")
+	var out []string
+	if ri.wipe != nil {
+		for p := range ri.restored {
+			out = append(out, strings.TrimSuffix(p, ".Init"))
+		}
+		sort.Strings(out)
+		return out
+	}
+	for _, f := range c.structFields(typeName) {
+		nt, ok := f.Type().(*types.Named)
+		if !ok || ri.covered[f.Name()] != "Reset()" {
+			continue
+		}
+		for _, s := range survivors(c, nt.Obj().Name(), depth+1) {
+			out = append(out, f.Name()+"."+s)
+		}
+	}
+	sort.Strings(out)
+	return out
+}
+
+// mustAssign: does every path through the statement list assign `target` (or call target-prefix.Init)?
+func mustAssign(c *Ctx, list []ast.Stmt, target string) bool {
+	for _, s := range list {
+		switch st := s.(type) {
+		case *ast.AssignStmt:
+			for _, l := range st.Lhs {
+				if c.src(l) == target {
+					return true
+				}
+			}
+		case *ast.ExprStmt:
+			if call, ok := st.X.(*ast.CallExpr); ok {
+				if sel, ok := call.Fun.(*ast.SelectorExpr); ok && sel.Sel.Name == "Init" && strings.HasPrefix(target, c.src(sel.X)) {
+					return true
+				}
+			}
+		case *ast.IfStmt:
+			if st.Else == nil {
+				continue
+			}
+			thenOK := mustAssign(c, st.Body.List, target)
+			elseOK := false
+			switch e := st.Else.(type) {
+			case *ast.BlockStmt:
+				elseOK = mustAssign(c, e.List, target)
+			case *ast.IfStmt:
+				elseOK = mustAssign(c, []ast.Stmt{e}, target)
+			}
+			if thenOK && elseOK {
+				return true
+			}
+		case *ast.BlockStmt:
+			if mustAssign(c, st.List, target) {
+				return true
+			}
+		}
+	}
+	return false
+}
+
+// Z4: a re-initialising Init assigns every array that survives Reset on every path (the object must not
+// keep arrays from its previous use when the caller passes none).
+func ruleZ4(c *Ctx) {
+	n := 0
+	for _, k := range c.funcKeys() {
+		fd := c.Decls[k]
+		if !strings.HasSuffix(k, ".Init") || fd.Recv == nil || len(fd.Body.List) == 0 {
+			continue
+		}
+		recv := fd.Recv.List[0].Names[0].Name
+		first, _ := fd.Body.List[0].(*ast.ExprStmt)
+		if first == nil || c.src(first.X) != recv+".Reset()" {
+			continue
+		}
+		tn := strings.TrimSuffix(k, ".Init")
+		for _, p := range survivors(c, tn, 0) {
+			n++
+			c.check(mustAssign(c, fd.Body.List[1:], recv+"."+p), "Z4", k+":"+p, fd.Pos(),
+				"array "+p+" survives Reset(); Init assigns it on every path (from the caller's argument or the private default), never keeping the previous one")
+		}
+	}
+	c.check(n >= 4, "Z4", "count", token.NoPos, fmt.Sprintf("%d surviving arrays of re-initialising Init methods checked (frozen minimum 4)", n))
 }
